@@ -155,8 +155,15 @@ func c13Run(w *ndWriter, rng *rand.Rand, askers int, classes []string, modes []s
 	case <-time.After(5 * time.Second):
 	}
 	rec.ev(E{"ev": "probe", "ok": ok})
+	if !ok {
+		c13Dead++
+	}
 	return rec.flush(w)
 }
+
+// c13Dead counts runs whose actor stopped serving (each costs many seconds of bounded waits): after three of them the recording
+// stops - what they show has been recorded, more of the same only costs time
+var c13Dead int
 
 // replies arriving right at the deadline: every asker has its own actor, which answers timeout + delta after it received the
 // request (delta swept through zero).  Either outcome is admissible - (F(msg), nil) or (zero, timeout) - but nothing may panic.
@@ -327,15 +334,15 @@ func c13Main(args []string) error {
 			n += c13Run(w, rng, 3, []string{c}, modes)
 			runs += 2
 		}
-		for r := 0; r < rounds; r++ {
+		for r := 0; r < rounds && c13Dead < 3; r++ {
 			n += c13Run(w, rng, []int{1, 2, 4, 8, 16, 32}[rng.Intn(6)], all, modes)
 			runs++
 		}
-		for r := 0; r < 2+rounds/10; r++ {
+		for r := 0; r < 2+rounds/10 && c13Dead < 3; r++ {
 			n += c13Run(w, rng, 64, []string{"prompt"}, []string{"timeout"})
 			runs++
 		}
-		for r := 0; r < 3+rounds/10; r++ {
+		for r := 0; r < 3+rounds/10 && c13Dead < 3; r++ {
 			n += c13Boundary(w, 48)
 			n += c13ReAsk(w, 1+r%8, 4)
 			runs += 2
